@@ -1767,6 +1767,17 @@ func c04Replay(c *core.Ctx, payload json.RawMessage) {
 		c04TrimPair(c, core.Scratch("c04trim"), tp.X, tp.Y, tp.Strict)
 		return
 	}
+	var sp c04SwitchCase
+	if json.Unmarshal(payload, &sp) == nil && sp.Family == "switch" && sp.Primer >= 0 && sp.Primer < len(c04SwitchPrimers) {
+		fmt.Printf("replaying switch family case %+v\n", sp)
+		dir := core.Scratch("c04switch")
+		if err := c04SwitchPrepare(dir); err != nil {
+			fmt.Println("replay: cannot write the tables:", err)
+			return
+		}
+		c04SwitchOne(c, dir, sp, nil)
+		return
+	}
 	var p c04Payload
 	if err := json.Unmarshal(payload, &p); err != nil {
 		fmt.Println("bad payload:", err)
